@@ -149,6 +149,12 @@ impl StorageData for FileStorage {
         Ok(())
     }
 
+    fn rollback(&mut self) -> Result<bool, DbError> {
+        Self::apply_wal(&mut self.file, &mut self.wal)?;
+        self.len = self.file.seek(SeekFrom::End(0))?;
+        Ok(true)
+    }
+
     fn resize(&mut self, new_len: u64) -> Result<(), DbError> {
         let current_len = self.len();
 
